@@ -1,28 +1,15 @@
 package memoryevict
 
-// C11 parts "mem-*": the victim-list builders of the memory strategies (getSortedBEPodInfos,
-// getPodEvictInfoAndSortByPriority through its two wrappers), the release-target functions and the whole round
-// (buildEvictTask for 1-3 simultaneous features -> KillAndEvictPods) on enumerated pod sets, with hand-written
-// fakes for the states informer and the metric cache (the real aggregate result is used) and the recording /
-// failing executor of judge_test.go. All oracle predicates below are restated from the property statement and
-// the published API documentation; they read the harness' own pod description (c11P), never the code's helpers.
+// C11, memoryevict-specific part: features, resources, construction of the real memoryEvictor on fakes, the node
+// situations that steer the computed release targets. Everything else is in round_test.go / judge_mem_test.go.
 
 import (
-	"encoding/json"
-	"fmt"
-	"hash/fnv"
-	"sort"
-	"strconv"
-	"strings"
 	"testing"
 	"time"
 
-	"github.com/prometheus/prometheus/model/labels"
-	"github.com/prometheus/prometheus/tsdb/chunkenc"
 	corev1 "k8s.io/api/core/v1"
 	"k8s.io/apimachinery/pkg/api/resource"
 	metav1 "k8s.io/apimachinery/pkg/apis/meta/v1"
-	"k8s.io/apimachinery/pkg/types"
 	"k8s.io/component-base/featuregate"
 
 	slov1alpha1 "github.com/koordinator-sh/koordinator/apis/slo/v1alpha1"
@@ -33,286 +20,28 @@ import (
 	"github.com/koordinator-sh/koordinator/pkg/zzverif/mc"
 )
 
-// ---------------------------------------------------------------------------------------------- fakes
-
-type c11Informer struct {
-	statesinformer.StatesInformer // nil: any other call panics (and is reported)
-	pods                          []*statesinformer.PodMeta
-	node                          *corev1.Node
-	slo                           *slov1alpha1.NodeSLO
-}
-
-func (f *c11Informer) GetAllPods() []*statesinformer.PodMeta { return f.pods }
-func (f *c11Informer) GetNode() *corev1.Node                 { return f.node }
-func (f *c11Informer) GetNodeSLO() *slov1alpha1.NodeSLO      { return f.slo }
-
-func c11MetaKey(meta metriccache.MetricMeta) string {
-	p := meta.GetProperties()
-	ks := make([]string, 0, len(p))
-	for k := range p {
-		ks = append(ks, k)
-	}
-	sort.Strings(ks)
-	var b strings.Builder
-	b.WriteString(meta.GetKind())
-	for _, k := range ks {
-		b.WriteString("|" + k + "=" + p[k])
-	}
-	return b.String()
-}
-
-// c11Cache answers every query with at most one series of one fresh point, like the TSDB querier does for a
-// metric that was just collected; a metric that is not in vals has no series (pod without metrics).
-type c11Cache struct {
-	metriccache.MetricCache
-	vals map[string]float64
-	now  int64
-}
-
-func (c *c11Cache) Querier(start, end time.Time) (metriccache.Querier, error) {
-	return &c11Querier{c}, nil
-}
-
-type c11Querier struct{ *c11Cache }
-
-func (c *c11Querier) Close() {}
-func (c *c11Querier) QueryAndClose(meta metriccache.MetricMeta, hints *metriccache.QueryHints, result metriccache.MetricResult) error {
-	return c.Query(meta, hints, result)
-}
-func (c *c11Querier) Query(meta metriccache.MetricMeta, hints *metriccache.QueryHints, result metriccache.MetricResult) error {
-	v, ok := c.vals[c11MetaKey(meta)]
-	if !ok {
-		return nil
-	}
-	return result.AddSeries(&c11Series{lbl: meta.GetProperties(), t: c.now, v: v})
-}
-
-type c11Series struct {
-	lbl  map[string]string
-	t    int64
-	v    float64
-	done bool
-}
-
-func (s *c11Series) Labels() labels.Labels       { return labels.FromMap(s.lbl) }
-func (s *c11Series) Iterator() chunkenc.Iterator { return &c11Series{t: s.t, v: s.v} }
-func (s *c11Series) Next() bool {
-	if s.done {
-		return false
-	}
-	s.done = true
-	return true
-}
-func (s *c11Series) Seek(t int64) bool    { return s.Next() }
-func (s *c11Series) At() (int64, float64) { return s.t, s.v }
-func (s *c11Series) Err() error           { return nil }
-
-// ---------------------------------------------------------------------------------------------- pods
-
-// c11P is the harness' description of one pod; the corev1.Pod handed to the code is built from it.
-type c11P struct {
-	QoS      string  `json:"qos"`      // label koordinator.sh/qosClass
-	Prio     *int32  `json:"prio"`     // spec.priority
-	Enabled  bool    `json:"enabled"`  // label koordinator.sh/eviction-enabled=true
-	Policy   *string `json:"policy"`   // annotation koordinator.sh/eviction-policy
-	EvP      *string `json:"evp"`      // annotation koordinator.sh/eviction-priority
-	SubPrio  *string `json:"subprio"`  // label koordinator.sh/priority
-	Usage    int64   `json:"usage"`    // memory usage metric in bytes, -1: no metric
-	Req      int64   `json:"req"`      // request of the pod's class resource (batch-memory / mid-memory / memory)
-	Inactive bool    `json:"inactive"` // phase Succeeded
-}
-
-func (p c11P) String() string {
-	s := p.QoS
-	if p.Prio != nil {
-		s += fmt.Sprintf(",prio=%d", *p.Prio)
-	} else {
-		s += ",prio=nil"
-	}
-	if p.Enabled {
-		s += ",evict-enabled"
-	}
-	if p.Policy != nil {
-		s += ",policy=" + *p.Policy
-	}
-	if p.EvP != nil {
-		s += ",eviction-priority=" + *p.EvP
-	}
-	if p.SubPrio != nil {
-		s += ",priority-label=" + *p.SubPrio
-	}
-	s += fmt.Sprintf(",usage=%d,req=%d", p.Usage, p.Req)
-	if p.Inactive {
-		s += ",Succeeded"
-	}
-	return "{" + s + "}"
-}
-
 const (
-	c11LblQoS     = "koordinator.sh/qosClass"
-	c11LblEnabled = "koordinator.sh/eviction-enabled"
-	c11LblSubPrio = "koordinator.sh/priority"
-	c11AnnPolicy  = "koordinator.sh/eviction-policy"
-	c11AnnEvP     = "koordinator.sh/eviction-priority"
-	c11ResBatch   = "kubernetes.io/batch-memory"
-	c11ResMid     = "kubernetes.io/mid-memory"
-	c11ResPlain   = "memory"
-	c11TypeUsed   = "podUsed"
-	c11TypeReq    = "podResourceRequest"
+	c11Unit     = "mem"
+	c11Scale    = int64(1) // usage / request alphabets in bytes
+	c11ResBatch = "kubernetes.io/batch-memory"
+	c11ResMid   = "kubernetes.io/mid-memory"
+	c11ResPlain = "memory"
+	c11FBE      = "BEMemoryEvict"
+	c11FUsed    = "MemoryEvict"
+	c11FAlloc   = "MemoryAllocatableEvict"
 )
 
-// c11ClassRes: which resource the pod requests (the koordinator priority bands: batch 5000-5999, mid 7000-7999).
-func c11ClassRes(p *c11P) string {
-	if p.Prio == nil {
-		if p.QoS == "BE" {
-			return c11ResBatch
-		}
-		return c11ResPlain
-	}
-	switch {
-	case *p.Prio >= 5000 && *p.Prio <= 5999:
-		return c11ResBatch
-	case *p.Prio >= 7000 && *p.Prio <= 7999:
-		return c11ResMid
-	}
-	return c11ResPlain
+// the order in which memoryEvict() builds the tasks
+var c11FeatureOrder = []featuregate.Feature{features.BEMemoryEvict, features.MemoryAllocatableEvict, features.MemoryEvict}
+
+func c11ReqQuantity(res string, v int64) resource.Quantity {
+	return *resource.NewQuantity(v, resource.BinarySI)
 }
 
-func c11BuildPod(i int, p *c11P) *corev1.Pod {
-	name := "p" + strconv.Itoa(i)
-	pod := &corev1.Pod{ObjectMeta: metav1.ObjectMeta{Name: name, Namespace: "default", UID: types.UID(name + "-uid"),
-		Labels: map[string]string{}, Annotations: map[string]string{}}}
-	if p.QoS != "" {
-		pod.Labels[c11LblQoS] = p.QoS
-	}
-	if p.Enabled {
-		pod.Labels[c11LblEnabled] = "true"
-	}
-	if p.SubPrio != nil {
-		pod.Labels[c11LblSubPrio] = *p.SubPrio
-	}
-	if p.Policy != nil {
-		pod.Annotations[c11AnnPolicy] = *p.Policy
-	}
-	if p.EvP != nil {
-		pod.Annotations[c11AnnEvP] = *p.EvP
-	}
-	if p.Prio != nil {
-		v := *p.Prio
-		pod.Spec.Priority = &v
-	}
-	pod.Spec.Containers = []corev1.Container{{Name: "main", Resources: corev1.ResourceRequirements{Requests: corev1.ResourceList{
-		corev1.ResourceName(c11ClassRes(p)): *resource.NewQuantity(p.Req, resource.BinarySI)}}}}
-	pod.Status.Phase = corev1.PodRunning
-	if p.Inactive {
-		pod.Status.Phase = corev1.PodSucceeded
-	}
-	return pod
-}
+func c11QValue(res string, q resource.Quantity) int64 { return q.Value() }
 
-// ---------------------------------------------------------------------------------------------- oracle predicates
-
-const (
-	c11FBE    = "BEMemoryEvict"
-	c11FUsed  = "MemoryEvict"
-	c11FAlloc = "MemoryAllocatableEvict"
-)
-
-// c11Elig: "every victim is a pod the policy allows (best-effort QoS, or priority not above the configured
-// threshold with eviction enabled, and not opted out of this eviction policy)". th == nil: the policy has no
-// priority threshold (best-effort strategies). Anything the statement leaves open is accepted: a malformed
-// opt-out annotation, a pod without spec.priority.
-func c11Elig(feature string, th *int32, p *c11P) string {
-	if p.Policy != nil {
-		var allowed []string
-		if err := json.Unmarshal([]byte(*p.Policy), &allowed); err == nil {
-			in := false
-			for _, a := range allowed {
-				if a == feature {
-					in = true
-				}
-			}
-			if !in {
-				return fmt.Sprintf("the pod restricts eviction to the policies %s, which do not include %s", *p.Policy, feature)
-			}
-		}
-	}
-	if p.QoS == "BE" {
-		return ""
-	}
-	if th == nil {
-		return "the pod is not best-effort and the policy has no priority threshold"
-	}
-	if p.Prio == nil {
-		return ""
-	}
-	if *p.Prio > *th {
-		return fmt.Sprintf("the pod is not best-effort and its priority %d is above the threshold %d", *p.Prio, *th)
-	}
-	if !p.Enabled {
-		return "the pod is not best-effort and eviction is not enabled on it"
-	}
-	return ""
-}
-
-func c11ParseInt(s *string, bits int) (int64, bool) {
-	if s == nil {
-		return 0, false
-	}
-	v, err := strconv.ParseInt(*s, 10, bits)
-	return v, err == nil
-}
-
-// c11MayPrecede: may a be taken before b under the published order of the feature? Non-strict (ties either way);
-// a key the statement does not define for a pod (no spec.priority, unparsable annotation, no priority label, no
-// metric) makes the pair incomparable from that key on, and incomparable pairs are accepted.
-// Priority strategies: eviction-priority annotation (unset = 0) ascending, then spec.priority ascending, then the
-// koordinator.sh/priority label ascending, then usage (MemoryEvict) or request (MemoryAllocatableEvict) descending.
-// Best-effort strategy: spec.priority ascending, then usage descending (the eviction-priority annotation is
-// published for the priority strategies; its effect on the best-effort strategy is only counted).
-func c11MayPrecede(feature string, a, b *c11P) (ok bool, level string) {
-	if feature != c11FBE {
-		ea, eb := int64(0), int64(0)
-		var oka, okb = true, true
-		if a.EvP != nil {
-			ea, oka = c11ParseInt(a.EvP, 32)
-		}
-		if b.EvP != nil {
-			eb, okb = c11ParseInt(b.EvP, 32)
-		}
-		if !oka || !okb {
-			return true, ""
-		}
-		if ea != eb {
-			return ea < eb, "eviction-priority"
-		}
-	}
-	if a.Prio == nil || b.Prio == nil {
-		return true, ""
-	}
-	if *a.Prio != *b.Prio {
-		return *a.Prio < *b.Prio, "priority"
-	}
-	if feature != c11FBE {
-		sa, oka := c11ParseInt(a.SubPrio, 64)
-		sb, okb := c11ParseInt(b.SubPrio, 64)
-		if !oka || !okb {
-			return true, ""
-		}
-		if sa != sb {
-			return sa < sb, "priority-label"
-		}
-	}
-	if feature == c11FAlloc {
-		return a.Req >= b.Req, "request"
-	}
-	if a.Usage < 0 || b.Usage < 0 {
-		return true, ""
-	}
-	return a.Usage >= b.Usage, "usage"
-}
-
-// ---------------------------------------------------------------------------------------------- running the code
+// c11BELastKey: last key of the best-effort order, "compare priority > podMetric": larger memory usage first.
+func c11BELastKey(a, b *c11P) (bool, string) { return a.Usage >= b.Usage, "usage" }
 
 type c11MCfg struct {
 	NodeUsed       int64 `json:"nodeUsed"` // node memory usage metric (bytes); capacity is 100 bytes, so it is also the percentage
@@ -323,18 +52,6 @@ type c11MCfg struct {
 	AllocThreshold int64 `json:"allocThreshold"`
 	AllocLower     int64 `json:"allocLower"`
 	Allocatable    int64 `json:"allocatable"` // node allocatable of batch-memory, mid-memory and memory; -1: absent
-}
-
-type c11MCase struct {
-	Pods     []c11P   `json:"pods"`
-	Features []string `json:"features"`
-	Cfg      c11MCfg  `json:"cfg"`
-	Already  []bool   `json:"already"`
-	Fails    []bool   `json:"fails"`
-}
-
-func (c c11MCase) String() string {
-	return fmt.Sprintf("{pods:%v features:%v cfg:%+v alreadyEvicted:%v failingCalls:%v}", c.Pods, c.Features, c.Cfg, c.Already, c.Fails)
 }
 
 type c11World struct {
@@ -390,208 +107,13 @@ func c11NewWorld(ps []c11P, cfg *c11MCfg) *c11World {
 	return w
 }
 
-func c11FeatureTh(feature string, cfg *c11MCfg) *int32 {
-	switch feature {
-	case c11FUsed:
-		v := cfg.UsedPrioTh
-		return &v
-	case c11FAlloc:
-		v := cfg.AllocPrioTh
-		return &v
-	}
-	return nil
+func (w *c11World) buildTask(f featuregate.Feature) (*qosmanagerUtil.EvictTaskInfo, error) {
+	return w.m.buildEvictTask(f, w.slo, w.node)
 }
 
-func c11FeatureOfReason(reason string) string {
-	return strings.TrimPrefix(reason, qosmanagerUtil.EvictReasonPrefix)
-}
+func (w *c11World) setExecutor(ex qosmanagerUtil.EvictionExecutor) { w.m.evictExecutor = ex }
 
-func c11Indices(infos []*qosmanagerUtil.PodEvictInfo) []int {
-	out := make([]int, 0, len(infos))
-	for _, in := range infos {
-		out = append(out, c11PodIndex(in.Pod))
-	}
-	return out
-}
-
-var c11FeatureOrder = []featuregate.Feature{features.BEMemoryEvict, features.MemoryAllocatableEvict, features.MemoryEvict}
-
-type c11MObs struct {
-	tasks    []c11Task
-	ex       *c11Exec
-	returned map[string]map[string]int64
-	newly    bool
-	panicS   string
-	buildErr int
-}
-
-// c11MRun performs one round like memoryEvict() does for the enabled features: build the tasks in the fixed
-// feature order, hand them to KillAndEvictPods.
-func c11MRun(c *c11MCase) (o c11MObs) {
-	o.panicS = mc.Guard(func() {
-		w := c11NewWorld(c.Pods, &c.Cfg)
-		var tasks []*qosmanagerUtil.EvictTaskInfo
-		for _, f := range c11FeatureOrder {
-			sel := false
-			for _, s := range c.Features {
-				if s == string(f) {
-					sel = true
-				}
-			}
-			if !sel {
-				continue
-			}
-			task, err := w.m.buildEvictTask(f, w.slo, w.node)
-			if err != nil {
-				o.buildErr++
-				continue
-			}
-			if task == nil {
-				continue
-			}
-			tasks = append(tasks, task)
-			mt := c11Task{Name: task.Reason, Type: string(task.ReleaseTarget), Target: map[string]int64{}, List: c11Indices(task.SortedEvictPods)}
-			for rn, q := range task.ToReleaseResource {
-				mt.Target[string(rn)] = q.Value()
-			}
-			o.tasks = append(o.tasks, mt)
-		}
-		o.ex = &c11Exec{tasks: o.tasks, already: c.Already, fails: c.Fails}
-		w.m.evictExecutor = o.ex
-		if len(tasks) == 0 {
-			return
-		}
-		rel, newly := qosmanagerUtil.KillAndEvictPods(o.ex, w.node, tasks)
-		o.newly = newly
-		o.returned = map[string]map[string]int64{}
-		for t, rl := range rel {
-			o.returned[string(t)] = map[string]int64{}
-			for rn, q := range rl {
-				o.returned[string(t)][string(rn)] = q.Value()
-			}
-		}
-	})
-	if o.ex == nil {
-		o.ex = &c11Exec{}
-	}
-	return
-}
-
-func c11MContrib(ps []c11P) func(pod int, typ, res string) (int64, bool) {
-	return func(pod int, typ, res string) (int64, bool) {
-		p := &ps[pod]
-		switch typ {
-		case c11TypeUsed:
-			if res == c11ResPlain {
-				if p.Usage < 0 {
-					return 0, false
-				}
-				return p.Usage, true
-			}
-		case c11TypeReq:
-			if res == c11ClassRes(p) {
-				return p.Req, true
-			}
-		}
-		return 0, true
-	}
-}
-
-func c11MJudge(c *c11MCase, o *c11MObs, count c11Counter) []c11Finding {
-	run := &c11Run{
-		Tasks:   o.tasks,
-		Already: c.Already,
-		Contrib: c11MContrib(c.Pods),
-		Elig: func(task, pod int) string {
-			f := c11FeatureOfReason(o.tasks[task].Name)
-			return c11Elig(f, c11FeatureTh(f, &c.Cfg), &c.Pods[pod])
-		},
-		MayPrecede: func(task, a, b int) (bool, string) {
-			f := c11FeatureOfReason(o.tasks[task].Name)
-			ok, level := c11MayPrecede(f, &c.Pods[a], &c.Pods[b])
-			if ok {
-				return true, ""
-			}
-			return false, fmt.Sprintf("%s|the published order puts %v after %v (key %s)", level, c.Pods[a], c.Pods[b], level)
-		},
-		Events:   o.ex.events,
-		Returned: o.returned,
-	}
-	fs := c11Judge(run, count)
-	return fs
-}
-
-// ---------------------------------------------------------------------------------------------- alphabets
-
-func c11I32(v int32) *int32   { return &v }
-func c11Str(s string) *string { return &s }
-
-type c11Alpha struct {
-	qos      []string
-	prio     []*int32
-	enabled  []bool
-	policy   []*string
-	evp      []*string
-	sub      []*string
-	usage    []int64
-	req      []int64
-	inactive []bool
-}
-
-func (a *c11Alpha) size() int {
-	return len(a.qos) * len(a.prio) * len(a.enabled) * len(a.policy) * len(a.evp) * len(a.sub) * len(a.usage) * len(a.req) * len(a.inactive)
-}
-
-func (a *c11Alpha) decode(code int) c11P {
-	var p c11P
-	pick := func(n int) int { v := code % n; code /= n; return v }
-	p.QoS = a.qos[pick(len(a.qos))]
-	p.Prio = a.prio[pick(len(a.prio))]
-	p.Enabled = a.enabled[pick(len(a.enabled))]
-	p.Policy = a.policy[pick(len(a.policy))]
-	p.EvP = a.evp[pick(len(a.evp))]
-	p.SubPrio = a.sub[pick(len(a.sub))]
-	p.Usage = a.usage[pick(len(a.usage))]
-	p.Req = a.req[pick(len(a.req))]
-	p.Inactive = a.inactive[pick(len(a.inactive))]
-	return p
-}
-
-func (a *c11Alpha) String() string {
-	d := func(v []*string) []string {
-		var o []string
-		for _, s := range v {
-			if s == nil {
-				o = append(o, "unset")
-			} else {
-				o = append(o, *s)
-			}
-		}
-		return o
-	}
-	var pr []string
-	for _, p := range a.prio {
-		if p == nil {
-			pr = append(pr, "nil")
-		} else {
-			pr = append(pr, strconv.Itoa(int(*p)))
-		}
-	}
-	return fmt.Sprintf("qos%v x priority%v x evict-enabled%v x eviction-policy%v x eviction-priority%v x priority-label%v x usage%v x request%v x inactive%v",
-		a.qos, pr, a.enabled, d(a.policy), d(a.evp), d(a.sub), a.usage, a.req, a.inactive)
-}
-
-func c11PolicyAlpha(feature string, full bool) []*string {
-	out := []*string{nil, c11Str(`["` + feature + `"]`), c11Str(`["SomeOtherPolicy"]`)}
-	if full {
-		out = append(out, c11Str(`[`), c11Str(`[]`), c11Str(`["SomeOtherPolicy","`+feature+`"]`))
-	}
-	return out
-}
-
-// ---------------------------------------------------------------------------------------------- builder parts
-
-func c11CallBuilder(w *c11World, feature string) []*qosmanagerUtil.PodEvictInfo {
+func (w *c11World) list(feature string) []*qosmanagerUtil.PodEvictInfo {
 	switch feature {
 	case c11FBE:
 		return w.m.getSortedBEPodInfos(feature, w.th, w.metas)
@@ -602,255 +124,11 @@ func c11CallBuilder(w *c11World, feature string) []*qosmanagerUtil.PodEvictInfo 
 	}
 }
 
-type c11BCase struct {
-	Pods    []c11P `json:"pods"`
-	Feature string `json:"feature"`
-	PrioTh  int32  `json:"prioTh"`
+func c11BuilderCfg(th int32) c11MCfg {
+	return c11MCfg{NodeUsed: 50, Threshold: 1, Lower: 0, UsedPrioTh: th, AllocPrioTh: th, AllocThreshold: 1, AllocLower: 0, Allocatable: 100}
 }
 
-func c11BuilderCheck(res *mc.Result, rep *c11Reporter, l *mc.Local, ds *mc.DistinctSet, part string, bc *c11BCase) {
-	l.Evals++
-	cfg := c11MCfg{NodeUsed: 50, Threshold: 1, Lower: 0, UsedPrioTh: bc.PrioTh, AllocPrioTh: bc.PrioTh, AllocThreshold: 1, AllocLower: 0, Allocatable: 100}
-	var list []int
-	ps := mc.Guard(func() {
-		w := c11NewWorld(bc.Pods, &cfg)
-		list = c11Indices(c11CallBuilder(w, bc.Feature))
-	})
-	key := "C11|" + part + "|" + bc.Feature + "|"
-	if ps != "" {
-		rep.Report(res, l, key+"panic", func() (string, any) { return ps, *bc })
-		return
-	}
-	th := c11FeatureTh(bc.Feature, &cfg)
-	seen := map[int]bool{}
-	for i, p := range list {
-		l.Count("listed_pods_judged", 1)
-		if p < 0 || p >= len(bc.Pods) || seen[p] {
-			rep.Report(res, l, key+"ineligible|not-a-pod-or-listed-twice", func() (string, any) {
-				return fmt.Sprintf("victim list %v of %v", list, bc.Pods), *bc
-			})
-			return
-		}
-		seen[p] = true
-		if why := c11Elig(bc.Feature, th, &bc.Pods[p]); why != "" {
-			p := p
-			rep.Report(res, l, key+"ineligible", func() (string, any) {
-				return fmt.Sprintf("victim list %v of feature %s (threshold %v) contains pod %d %v: %s", list, bc.Feature, bc.PrioTh, p, bc.Pods[p], why), *bc
-			})
-		}
-		if i > 0 {
-			a, b := list[i-1], p
-			ok, level := c11MayPrecede(bc.Feature, &bc.Pods[a], &bc.Pods[b])
-			if level != "" {
-				l.Count("order_pairs_decided_by_"+level, 1)
-			} else {
-				l.Count("order_pairs_incomparable", 1)
-			}
-			if !ok {
-				rep.Report(res, l, key+"order|"+level, func() (string, any) {
-					return fmt.Sprintf("victim list %v of feature %s puts pod %d %v before pod %d %v although the published order (key %s) says otherwise; pods %v", list, bc.Feature, a, bc.Pods[a], b, bc.Pods[b], level, bc.Pods), *bc
-				})
-			}
-			if bc.Feature == c11FBE {
-				// not judged: the eviction-priority annotation on the best-effort strategy
-				ea, oka := int64(0), true
-				eb, okb := int64(0), true
-				if bc.Pods[a].EvP != nil {
-					ea, oka = c11ParseInt(bc.Pods[a].EvP, 32)
-				}
-				if bc.Pods[b].EvP != nil {
-					eb, okb = c11ParseInt(bc.Pods[b].EvP, 32)
-				}
-				if oka && okb && ea > eb {
-					l.Count("diag_be_list_ignores_eviction_priority_annotation", 1)
-				}
-			}
-		}
-	}
-	for p := range bc.Pods {
-		if !seen[p] && c11Elig(bc.Feature, th, &bc.Pods[p]) == "" {
-			l.Count("diag_allowed_pod_not_listed", 1)
-		}
-	}
-	if len(list) > 0 {
-		l.Count("nonempty_lists", 1)
-		h := fnv.New64a()
-		fmt.Fprint(h, bc.Feature, bc.PrioTh, list)
-		for i := range bc.Pods {
-			fmt.Fprint(h, bc.Pods[i].String())
-		}
-		ds.AddHash(h.Sum64())
-	}
-	if len(list) < len(bc.Pods) {
-		l.Count("lists_with_filtered_pods", 1)
-	}
-}
-
-type c11BPart struct {
-	name  string
-	n     int
-	alpha func(feature string) *c11Alpha
-	ths   []int32
-}
-
-func c11BuilderParts(env *mc.Env) []c11BPart {
-	batch, batch2, mid, prod := c11I32(5500), c11I32(5600), c11I32(7500), c11I32(9500)
-	un := []*string{nil}
-	eligFull := func(f string) *c11Alpha {
-		return &c11Alpha{qos: []string{"BE", "LS"}, prio: []*int32{batch, mid, prod, nil}, enabled: []bool{true, false}, policy: c11PolicyAlpha(f, true),
-			evp: un, sub: un, usage: []int64{2, -1}, req: []int64{1}, inactive: []bool{false, true}}
-	}
-	eligSmall := func(f string) *c11Alpha {
-		return &c11Alpha{qos: []string{"BE", "LS"}, prio: []*int32{batch, mid, prod, nil}, enabled: []bool{true, false}, policy: c11PolicyAlpha(f, false),
-			evp: un, sub: un, usage: []int64{2}, req: []int64{1}, inactive: []bool{false}}
-	}
-	orderFull := func(f string) *c11Alpha {
-		return &c11Alpha{qos: []string{"BE"}, prio: []*int32{batch, batch2, mid, nil}, enabled: []bool{true}, policy: un,
-			evp: []*string{nil, c11Str("-1"), c11Str("5"), c11Str("x")}, sub: []*string{nil, c11Str("1"), c11Str("9")},
-			usage: []int64{-1, 0, 1, 3}, req: []int64{0, 1, 2}, inactive: []bool{false}}
-	}
-	orderMid := func(f string) *c11Alpha {
-		return &c11Alpha{qos: []string{"BE"}, prio: []*int32{batch, mid, nil}, enabled: []bool{true}, policy: un,
-			evp: []*string{nil, c11Str("-1"), c11Str("5")}, sub: []*string{nil, c11Str("9")},
-			usage: []int64{0, 1, 3}, req: []int64{1, 2}, inactive: []bool{false}}
-	}
-	orderSmall := func(f string) *c11Alpha {
-		return &c11Alpha{qos: []string{"BE"}, prio: []*int32{batch, mid}, enabled: []bool{true}, policy: un,
-			evp: []*string{nil, c11Str("-1")}, sub: []*string{nil, c11Str("9")},
-			usage: []int64{1, 3}, req: []int64{1, 2}, inactive: []bool{false}}
-	}
-	orderTiny := func(f string) *c11Alpha {
-		return &c11Alpha{qos: []string{"BE"}, prio: []*int32{batch, nil}, enabled: []bool{true}, policy: un,
-			evp: []*string{nil, c11Str("-1")}, sub: un,
-			usage: []int64{0, 1, 3}, req: []int64{1}, inactive: []bool{false}}
-	}
-	ths := []int32{5999, 7999, 9999}
-	parts := []c11BPart{
-		{"elig-n1", 1, eligFull, ths},
-		{"order-n2", 2, orderFull, []int32{7999}},
-		{"elig-n2", 2, eligSmall, ths},
-		{"order-n3", 3, orderSmall, []int32{7999}},
-		{"order-nilprio-n3", 3, orderTiny, []int32{7999}},
-	}
-	if env.Thorough() {
-		parts = append(parts,
-			c11BPart{"elig-n2-full", 2, eligFull, ths},
-			c11BPart{"order-n3-mid", 3, orderMid, []int32{7999}},
-			c11BPart{"elig-n3", 3, eligSmall, []int32{7999}},
-			c11BPart{"order-n4", 4, orderSmall, []int32{7999}},
-			c11BPart{"order-nilprio-n4", 4, orderTiny, []int32{7999}},
-		)
-	}
-	return parts
-}
-
-var c11Features = []string{c11FBE, c11FUsed, c11FAlloc}
-
-func c11RunBuilderParts(env *mc.Env, unit string) {
-	for _, bp := range c11BuilderParts(env) {
-		bp := bp
-		res := mc.NewResult("C11", unit+"-builders-"+bp.name, "enumeration")
-		rep := &c11Reporter{}
-		ds := mc.NewDistinctSet()
-		var total int64
-		complete := true
-		var rule []string
-		for _, f := range c11Features {
-			f := f
-			a := bp.alpha(f)
-			dims := []int{}
-			for i := 0; i < bp.n; i++ {
-				dims = append(dims, a.size())
-			}
-			dims = append(dims, len(bp.ths))
-			rx := mc.Radix{Dims: dims}
-			total += rx.Size()
-			_, ok := env.ParallelRangeL(res, rx.Size(), func(l *mc.Local, idx int64) {
-				d := rx.Decode(idx, make([]int, 0, 8))
-				bc := c11BCase{Feature: f, PrioTh: bp.ths[d[bp.n]]}
-				for i := 0; i < bp.n; i++ {
-					bc.Pods = append(bc.Pods, a.decode(d[i]))
-				}
-				if f == c11FBE && d[bp.n] > 0 {
-					return // the best-effort strategy has no priority threshold
-				}
-				c11BuilderCheck(res, rep, l, ds, unit+"-builders", &bc)
-				if idx%100003 == 0 {
-					res.Sample(fmt.Sprintf("%s %v", f, bc.Pods))
-				}
-			})
-			complete = complete && ok
-			rule = append(rule, fmt.Sprintf("%s: %s", f, a.String()))
-		}
-		res.Traces = res.Evaluations
-		res.Distinct = ds.Len()
-		res.Exhaustive = complete
-		if !complete {
-			res.Capped = fmt.Sprintf("time budget hit (%d of %d tuples evaluated)", res.Evaluations, total)
-		}
-		res.Rule = fmt.Sprintf("every ordered tuple of %d pods over the per-pod alphabet {%s} x priority threshold %v, handed to the real victim-list builder of each feature; judged: every listed pod is allowed by the statement's policy, consecutive listed pods respect the published order (non-strict; undefined keys = incomparable); non-trivial = non-empty list; distinct = distinct (input, list)", bp.n, strings.Join(rule, " || "), bp.ths)
-		res.Bounds = map[string]any{"pods": bp.n, "tuples": total}
-		if n := res.Counters["diag_be_list_ignores_eviction_priority_annotation"]; n > 0 {
-			res.Diag(fmt.Sprintf("%d consecutive pairs of the best-effort victim list are against the eviction-priority annotation (not judged: the annotation is published for the priority strategies)", n))
-		}
-		if n := res.Counters["diag_allowed_pod_not_listed"]; n > 0 {
-			res.Diag(fmt.Sprintf("%d pods allowed by the statement's policy were not listed (no metric, inactive, BE pod not evict-enabled under a priority strategy ...): not a violation, the statement is one-directional", n))
-		}
-		env.Emit(res)
-	}
-}
-
-// ---------------------------------------------------------------------------------------------- whole-round parts
-
-type c11EPart struct {
-	name     string
-	n        int
-	features []string
-	kinds    []c11P // base pods (eligibility class); crossed with evp x usage x req
-	evp      []*string
-	usage    []int64
-	req      []int64
-}
-
-func c11Kinds() map[string]c11P {
-	batch, mid, prod, none := c11I32(5500), c11I32(7500), c11I32(9500), c11I32(6500)
-	return map[string]c11P{
-		"be":            {QoS: "BE", Prio: batch, Enabled: true},
-		"be-noevict":    {QoS: "BE", Prio: batch},
-		"mid":           {QoS: "LS", Prio: mid, Enabled: true},
-		"mid-noevict":   {QoS: "LS", Prio: mid},
-		"prod":          {QoS: "LS", Prio: prod, Enabled: true},
-		"none":          {QoS: "LS", Prio: none, Enabled: true},
-		"be-only-alloc": {QoS: "BE", Prio: batch, Enabled: true, Policy: c11Str(`["` + c11FAlloc + `"]`)},
-		"be-only-be":    {QoS: "BE", Prio: batch, Enabled: true, Policy: c11Str(`["` + c11FBE + `"]`)},
-		"be-nilprio":    {QoS: "BE", Enabled: true},
-	}
-}
-
-func c11Has(fs []string, f string) bool {
-	for _, x := range fs {
-		if x == f {
-			return true
-		}
-	}
-	return false
-}
-
-func c11Dedupe(v []int64) []int64 {
-	var out []int64
-	for _, x := range v {
-		dup := x < 0
-		for _, o := range out {
-			if o == x {
-				dup = true
-			}
-		}
-		if !dup {
-			out = append(out, x)
-		}
-	}
-	return out
-}
+const c11SituationsText = "used-memory target {below threshold,1,2,sum,sum+1} bytes through the node usage metric (capacity 100 bytes, threshold 1%, lower 0%); priority thresholds {9999,7999} / {7999,5999}; allocatable target through lower percent {0,1} with node allocatable 100, or node allocatable absent"
 
 // c11ECfgs: the node situations of one pod set: used-memory targets 1 / 2 / exact sum / sum+1 (and "below the
 // threshold"), allocatable targets through the lower percent and the node allocatable (present / absent).
@@ -903,170 +181,11 @@ func c11ECfgs(ps []c11P, fs []string, rich bool) []c11MCfg {
 	return cfgs
 }
 
-func c11EParts(env *mc.Env) []c11EPart {
-	k := c11Kinds()
-	pick := func(names ...string) []c11P {
-		var out []c11P
-		for _, n := range names {
-			out = append(out, k[n])
-		}
-		return out
-	}
-	un := []*string{nil}
-	evp2 := []*string{nil, c11Str("-1")}
-	all := pick("be", "be-noevict", "mid", "mid-noevict", "prod", "none", "be-only-alloc", "be-only-be", "be-nilprio")
-	core := pick("be", "be-noevict", "mid", "prod", "be-only-alloc")
-	small := pick("be", "mid", "none")
-	U3, U4 := []int64{0, 1, 3}, []int64{-1, 0, 1, 3}
-	var parts []c11EPart
-	sets := [][]string{{c11FBE}, {c11FUsed}, {c11FAlloc}, {c11FBE, c11FUsed}, {c11FBE, c11FAlloc}, {c11FAlloc, c11FUsed}, {c11FBE, c11FAlloc, c11FUsed}}
-	for _, fs := range sets {
-		name := strings.Join(fs, "+")
-		req := []int64{2}
-		if c11Has(fs, c11FAlloc) {
-			req = []int64{0, 2}
-		}
-		parts = append(parts, c11EPart{"round-" + name + "-n1", 1, fs, all, []*string{nil, c11Str("-1"), c11Str("5")}, U4, []int64{0, 2}})
-		if len(fs) <= 2 {
-			parts = append(parts, c11EPart{"round-" + name + "-n2", 2, fs, core, evp2, U3, req})
-			if env.Thorough() {
-				parts = append(parts, c11EPart{"round-" + name + "-n2-all", 2, fs, all, evp2, U4, req})
-				parts = append(parts, c11EPart{"round-" + name + "-n3", 3, fs, core, evp2, U3, req})
-			} else {
-				parts = append(parts, c11EPart{"round-" + name + "-n3", 3, fs, small, un, U3, req})
-			}
-		} else if env.Thorough() {
-			parts = append(parts, c11EPart{"round-" + name + "-n2", 2, fs, core, evp2, U3, req})
-			parts = append(parts, c11EPart{"round-" + name + "-n3", 3, fs, small, un, U3, req})
-		}
-	}
-	if env.Thorough() {
-		parts = append(parts, c11EPart{"round-" + c11FBE + "+" + c11FUsed + "-n4", 4, []string{c11FBE, c11FUsed}, pick("be", "mid"), un, []int64{0, 1, 3}, []int64{2}})
-		parts = append(parts, c11EPart{"round-" + c11FAlloc + "-n4", 4, []string{c11FAlloc}, pick("be", "mid"), evp2, []int64{1}, []int64{0, 2}})
-	}
-	sort.SliceStable(parts, func(i, j int) bool { return parts[i].n < parts[j].n })
-	return parts
-}
-
-func c11RunRoundParts(env *mc.Env, unit string) {
-	for _, ep := range c11EParts(env) {
-		ep := ep
-		res := mc.NewResult("C11", unit+"-"+ep.name, "faults")
-		rep := &c11Reporter{}
-		ds := mc.NewDistinctSet()
-		per := len(ep.kinds) * len(ep.evp) * len(ep.usage) * len(ep.req)
-		dims := []int{}
-		for i := 0; i < ep.n; i++ {
-			dims = append(dims, per)
-		}
-		dims = append(dims, 1<<uint(ep.n))
-		rx := mc.Radix{Dims: dims}
-		rich := ep.n <= 2
-		done, complete := env.ParallelRangeL(res, rx.Size(), func(l *mc.Local, idx int64) {
-			d := rx.Decode(idx, make([]int, 0, 8))
-			c := c11MCase{Features: ep.features, Already: make([]bool, ep.n)}
-			for i := 0; i < ep.n; i++ {
-				code := d[i]
-				p := ep.kinds[code%len(ep.kinds)]
-				code /= len(ep.kinds)
-				p.EvP = ep.evp[code%len(ep.evp)]
-				code /= len(ep.evp)
-				p.Usage = ep.usage[code%len(ep.usage)]
-				code /= len(ep.usage)
-				p.Req = ep.req[code%len(ep.req)]
-				c.Pods = append(c.Pods, p)
-			}
-			for i := 0; i < ep.n; i++ {
-				c.Already[i] = d[ep.n]&(1<<uint(i)) != 0
-			}
-			for _, cfg := range c11ECfgs(c.Pods, ep.features, rich) {
-				c.Cfg = cfg
-				l.Count("input_cases", 1)
-				c11ExploreFailures(func(fails []bool) int {
-					cc := c
-					cc.Fails = append([]bool{}, fails...)
-					l.Evals++
-					o := c11MRun(&cc)
-					key := "C11|" + unit + "-round|"
-					if o.panicS != "" {
-						rep.Report(res, l, key+"panic", func() (string, any) { return o.panicS + " case " + cc.String(), cc })
-						return o.ex.calls
-					}
-					l.Count("tasks_built", int64(len(o.tasks)))
-					if o.buildErr > 0 {
-						l.Count("task_build_errors", int64(o.buildErr))
-					}
-					for _, f := range c11MJudge(&cc, &o, l.Count) {
-						f := f
-						// the class of a finding includes the feature whose task made the call, when known
-						feat := ""
-						if f.Task >= 0 {
-							feat = c11FeatureOfReason(o.tasks[f.Task].Name) + "|"
-						}
-						rep.Report(res, l, key+feat+f.Clause, func() (string, any) {
-							return fmt.Sprintf("%s; case %v; tasks %+v; calls %v; returned %v", f.What, cc, o.tasks, c11EvictsOnly(o.ex.events), o.returned), cc
-						})
-					}
-					if o.ex.calls > 0 {
-						h := fnv.New64a()
-						fmt.Fprint(h, cc.String(), o.ex.events)
-						ds.AddHash(h.Sum64())
-					}
-					if len(fails) > 0 {
-						l.Count("runs_with_failing_calls", 1)
-					}
-					if idx%200003 == 0 && len(fails) == 0 && o.ex.calls > 0 {
-						res.Sample(fmt.Sprintf("%v -> tasks %+v calls %v", cc, o.tasks, c11EvictsOnly(o.ex.events)))
-					}
-					return o.ex.calls
-				})
-			}
-		})
-		res.Traces = res.Evaluations
-		res.Distinct = ds.Len()
-		res.Exhaustive = complete
-		if !complete {
-			res.Capped = fmt.Sprintf("time budget hit after %d of %d input codes", done, rx.Size())
-		}
-		var kinds []string
-		for _, kd := range ep.kinds {
-			kinds = append(kinds, kd.String())
-		}
-		res.Rule = fmt.Sprintf("every ordered tuple of %d pods over kinds %v x eviction-priority x usage %v x request %v; features %v enabled together; node situations per pod set: used-memory target {below threshold,1,2,sum,sum+1}, priority thresholds, allocatable target via lower percent {0,1} / node allocatable {100, absent}; every subset of pods already evicted; every pattern of individual Evict calls failing. One evaluation = buildEvictTask per feature + KillAndEvictPods on the real code; non-trivial = at least one Evict call; distinct = distinct (input, call log)", ep.n, kinds, ep.usage, ep.req, ep.features)
-		res.Bounds = map[string]any{"pods": ep.n, "features": len(ep.features), "input_codes": rx.Size()}
-		res.Assumptions = []string{"an Evict call on a pod that IsPodEvicted reports as evicted answers true (behaviour of Evictor.EvictPodIfNotEvicted)",
-			"the round is driven like memoryEvict() does (tasks built per enabled feature in its fixed order, then KillAndEvictPods); feature gates and the cooling interval are outside the harness",
-			"a pod's true contribution is its usage metric (used targets) resp. the request of its class resource in its spec (request targets); the release target is taken as computed by the code"}
-		if n := res.Counters["diag_stopped_early_with_useful_candidate"]; n > 0 {
-			res.Diag(fmt.Sprintf("%d task runs ended with the target not covered (by the pods' true contributions) although an untried listed candidate would free something of it (not a violation: the statement bounds eviction from above only)", n))
-		}
-		env.Emit(res)
-	}
-}
-
 func TestVerifC11Mem(t *testing.T) {
 	env := mc.LoadEnv()
-	{
-		var raw map[string]json.RawMessage
-		if _, ok := env.ReplayData(&raw); ok {
-			if _, isB := raw["feature"]; isB {
-				var bc c11BCase
-				env.ReplayData(&bc)
-				cfg := c11MCfg{NodeUsed: 50, Threshold: 1, Lower: 0, UsedPrioTh: bc.PrioTh, AllocPrioTh: bc.PrioTh, AllocThreshold: 1, AllocLower: 0, Allocatable: 100}
-				w := c11NewWorld(bc.Pods, &cfg)
-				fmt.Printf("REPLAY builder %s th=%d pods=%v -> list %v\n", bc.Feature, bc.PrioTh, bc.Pods, c11Indices(c11CallBuilder(w, bc.Feature)))
-				return
-			}
-			var c c11MCase
-			env.ReplayData(&c)
-			o := c11MRun(&c)
-			fmt.Printf("REPLAY case=%v\n tasks=%+v\n calls=%v\n returned=%v panic=%q\n", c, o.tasks, c11EvictsOnly(o.ex.events), o.returned, o.panicS)
-			for _, f := range c11MJudge(&c, &o, func(string, int64) {}) {
-				fmt.Printf(" FINDING %s: %s\n", f.Clause, f.What)
-			}
-			return
-		}
+	if c11Replay(env) {
+		return
 	}
-	c11RunBuilderParts(env, "mem")
-	c11RunRoundParts(env, "mem")
+	c11RunBuilderParts(env, c11Unit)
+	c11RunRoundParts(env, c11Unit)
 }
